@@ -1,6 +1,7 @@
 package main
 
 import (
+	"fmt"
 	"go/constant"
 	"go/token"
 	"go/types"
@@ -561,6 +562,12 @@ func (p *Prog) Summary(fn *ssa.Function, conds []ResultCond) []Atom {
 	defer delete(sumBusy, k)
 	fi := p.Info(fn)
 	var common map[string]Atom
+	type retSet struct {
+		r    *ssa.Return
+		set  map[string]Atom
+		list []Atom
+	}
+	var perRet []retSet
 	n := 0
 	for _, r := range returnsOf(fn) {
 		for _, pf := range fi.pathFactSets(r.Block()) {
@@ -589,14 +596,64 @@ func (p *Prog) Summary(fn *ssa.Function, conds []ResultCond) []Atom {
 					set[a.s] = a
 				}
 			}
+			// a result that is a full in-order map over a collection has that collection's length
+			for ri, rv := range r.Results {
+				if mo := fi.asMapOver(p, rv); mo != nil && len(mo.Elems) == 1 && mo.Loop.Lo == 0 && fi.onlyByExhaustion(mo.Loop, r.Block()) {
+					rt := mk(TParam, fmt.Sprintf("$ret%d", ri), rv.Type(), nil)
+					a := mkAtom("==", mk(TLen, "", types.Typ[types.Int], nil, rt), mo.Loop.Bound)
+					set[a.s] = a
+				}
+			}
+			var list []Atom
+			for _, a := range set {
+				list = append(list, a)
+			}
+			perRet = append(perRet, retSet{r, set, list})
 			if common == nil {
-				common = set
+				common = map[string]Atom{}
+				for key, a := range set {
+					common[key] = a
+				}
 			} else {
 				for key := range common {
 					if _, ok := set[key]; !ok {
 						delete(common, key)
 					}
 				}
+			}
+		}
+	}
+	// atoms of some return that the other returns' facts imply (integer reasoning), e.g.
+	// len(a)==len(b) holds on a return that established len(a)==0 and len(b)==0
+	if len(perRet) > 1 && common != nil {
+		cand := map[string]Atom{}
+		for _, rs := range perRet {
+			for key, a := range rs.set {
+				if _, in := common[key]; in {
+					continue
+				}
+				if _, _, isI := isInt(typeOf(a.L)); !isI {
+					continue
+				}
+				if a.Op == "!=" {
+					continue
+				}
+				cand[key] = a
+			}
+		}
+		for key, a := range cand {
+			ok := true
+			for _, rs := range perRet {
+				if _, in := rs.set[key]; in {
+					continue
+				}
+				if !p.impliesAtom(fi, rs.r, rs.list, a) {
+					ok = false
+					break
+				}
+			}
+			if ok {
+				common[key] = a
 			}
 		}
 	}
@@ -665,11 +722,38 @@ func (p *Prog) importSummary(fi *FnInfo, call ssa.CallInstruction, g *ssa.Functi
 			m[prm.Name()] = fi.T(args[i])
 		}
 	}
+	if cv, ok := call.(*ssa.Call); ok {
+		ct := fi.T(cv)
+		nres := cv.Common().Signature().Results().Len()
+		for i := 0; i < nres; i++ {
+			if nres == 1 {
+				m["$ret0"] = ct
+			} else {
+				r := mk(TRes, "", nil, nil, ct)
+				r.Idx = i
+				r.s = r.render()
+				m[fmt.Sprintf("$ret%d", i)] = r
+			}
+		}
+	}
 	var out []Atom
 	for _, a := range sum {
 		out = append(out, mkAtom(a.Op, a.L.subst(m), a.R.subst(m)))
 	}
 	return out
+}
+
+// impliesAtom: do the facts (holding at instruction at) imply the integer atom a?
+func (p *Prog) impliesAtom(fi *FnInfo, at ssa.Instruction, facts []Atom, a Atom) bool {
+	switch a.Op {
+	case "<=":
+		return p.ProveLE(fi, at, facts, a.L, a.R, false, 2)
+	case "<":
+		return p.ProveLE(fi, at, facts, a.L, a.R, true, 2)
+	case "==":
+		return p.ProveLE(fi, at, facts, a.L, a.R, false, 2) && p.ProveLE(fi, at, facts, a.R, a.L, false, 2)
+	}
+	return false
 }
 
 // FactsWithImports: dominance facts at in, plus summaries of module callees whose result
